@@ -623,7 +623,10 @@ where
         let ticks: Vec<usize> = reported.iter().filter(|r| r.0 >= n_listeners).map(|r| r.0).collect();
         let missed: Vec<usize> = reported.iter().filter(|r| r.1).map(|r| r.0).collect();
         if self.cfg.mode == Mode::Virtual {
-            ensure!(vclock::queries() > 0 || self.model.timers.iter().all(|t| t.is_none()), "harness", "virtual clock", "the code under test did not read the virtual clock");
+            if vclock::queries() == 0 && self.model.timers.iter().any(|t| t.is_some()) {
+                // not a verdict about iceoryx2: the interposition of clock_gettime does not work here
+                seqx::machinery_error("h_waitset: the code under test did not read the virtual clock (clock_gettime interposition inactive)");
+            }
             let mut got: Vec<usize> = ticks.iter().chain(missed.iter()).copied().collect();
             got.sort();
             let got_set: BTreeSet<usize> = got.iter().copied().collect();
